@@ -168,3 +168,54 @@ def unionseq_cases() -> List[Dict[str, Any]]:
 
 def describe_union_call(c: List[int]) -> str:
     return f"{modelops.UNION_VIAS[c[0]]} with id {modelops.UNION_IDS[c[1]]!r}"
+
+
+def crossclass_cases(mcases: Sequence[Dict[str, Any]]) -> List[Dict[str, Any]]:
+    """For every model class Y with public names of its own (methods, predicates) and every such name n: an object of
+    another class X carrying an unknown member n is validated first, then an object of Y carrying it (and Y alone as the
+    reference) - through model_validate and, for the JSON-RPC envelope classes, through parse_message."""
+    names = {q: v for q, v in modelops.class_specific_names().items() if not wiregen.is_config_class(wiregen.resolve(q))}
+    by = _plain_cases(mcases)
+    out = []
+    xs_all = sorted(by)
+    for qy, ns in sorted(names.items()):
+        ys = by.get(qy, [])
+        if not ys:
+            continue
+        ywires = [ys[0]["wire"], fullest(ys)["wire"]]
+        xs = [q for q in xs_all if q != qy and not wiregen.is_config_class(wiregen.resolve(q))]
+        xs = [xs[0], xs[len(xs) // 2], xs[-1]] + [q for q in xs if q.endswith(":JSONRPCResponse")]
+        for n in ns[:12]:
+            for val in (True, {"k": 1}):
+                for yw in ywires:
+                    yc = {"op": "validate", "target": qy, "wire": enc({**yw, n: val})}
+                    out.append({"cases": [yc], "reference": True, "y": qy, "member": n})
+                    for qx in dict.fromkeys(xs):
+                        xc = {"op": "validate", "target": qx, "wire": enc({**by[qx][0]["wire"], n: val})}
+                        out.append({"cases": [xc, yc], "reference": False, "y": qy, "x": qx, "member": n, "ref_index": None})
+                if qy.endswith(":JSONRPCMessage"):
+                    yc = {"op": "validate", "target": "parse_message", "wire": enc({"jsonrpc": "2.0", "id": 2, "result": {"k": 1}, n: val})}
+                    out.append({"cases": [yc], "reference": True, "y": "parse_message", "member": n})
+                    for xw in ({"jsonrpc": "2.0", "id": 1, "result": [1], n: val}, {"jsonrpc": "2.0", "id": 1, "result": "s", n: val}):
+                        xc = {"op": "validate", "target": "parse_message", "wire": enc(xw)}
+                        out.append({"cases": [xc, yc], "reference": False, "y": "parse_message", "x": "parse_message(non-object result)",
+                                    "member": n})
+    return out
+
+
+def constructed_cases(mcases: Sequence[Dict[str, Any]]) -> List[Dict[str, Any]]:
+    out = []
+    for q, cs in sorted(_plain_cases(mcases).items()):
+        seen = set()
+        for c in (cs[0], fullest(cs)):
+            k = workers.canon(c["wire"])
+            if k not in seen:
+                seen.add(k)
+                # members with a default that the wire object spells out are left out: the application relies on the default
+                cls = wiregen.resolve(q)
+                req = {f.wire for f in wiregen.fields(cls) if f.required}
+                lit = {f.wire for f in wiregen.fields(cls) if not f.required and wiregen.wire_required(f)}
+                out.append({"target": q, "label": c["label"], "wire": {k_: v for k_, v in c["wire"].items() if k_ not in lit}})
+                if lit & set(c["wire"]):
+                    out.append({"target": q, "label": c["label"] + "/literals-spelled-out", "wire": c["wire"]})
+    return out
